@@ -7,6 +7,7 @@ import c12
 import c15
 import c14
 import nhfamily
+import c17b
 
 CHECKS = {}
 CHECKS["RAFT"] = raftfamily.check_all
@@ -14,7 +15,23 @@ for _p in ("C02", "C03", "C06", "C07", "C18", "C17"):
     CHECKS[_p] = raftfamily.check
 CHECKS["C19"] = c19.check
 CHECKS["C05"] = rsmchecks.check_c05
-CHECKS["C08"] = rsmchecks.check_c08
+
+
+def _c08(prop, tier, replay_path):
+    """C08 = snapshot + suffix == replay (RSM.tla via smsim) + compaction covered by a snapshot (nhsim snap)"""
+    import json
+    if replay_path:
+        with open(replay_path) as fh:
+            kind = json.load(fh).get("kind")
+        if kind == "TestVerifNhsim":
+            return nhfamily.check_c08_compaction(prop, tier, replay_path)
+        return rsmchecks.check_c08(prop, tier, replay_path)
+    a = rsmchecks.check_c08(prop, tier, None)
+    b = nhfamily.check_c08_compaction(prop, tier, None)
+    return 1 if 1 in (a, b) else max(a, b)
+
+
+CHECKS["C08"] = _c08
 
 CHECKS["C12"] = c12.check
 CHECKS["C15"] = c15.check
@@ -36,10 +53,48 @@ def _c07(prop, tier, replay_path):
             kind = json.load(fh).get("kind")
         if kind == "rsim":
             return raftfamily.check(prop, tier, replay_path)
+        if kind == "TestVerifNhsim":
+            return nhfamily.check_c07_nodes(prop, tier, replay_path)
         return rsmchecks.run(prop, tier, replay_path, [])
     a = raftfamily.check(prop, tier, None)
     b = rsmchecks.check_c07_rules(prop, tier, None)
-    return 1 if 1 in (a, b) else max(a, b)
+    c = nhfamily.check_c07_nodes(prop, tier, None)
+    return 1 if 1 in (a, b, c) else max(a, b, c)
 
 
 CHECKS["C07"] = _c07
+
+
+def _c17(prop, tier, replay_path):
+    """C17 = bounded progress of the protocol (rsim) + quiesce and rate limiter as sequential objects"""
+    import json
+    if replay_path:
+        with open(replay_path) as fh:
+            kind = json.load(fh).get("kind")
+        if kind == "TestVerifQssim":
+            return c17b.check_quiesce(prop, tier, replay_path)
+        if kind == "TestVerifRlsim":
+            return c17b.check_ratelimit(prop, tier, replay_path)
+        return raftfamily.check(prop, tier, replay_path)
+    rs = [raftfamily.check(prop, tier, None), c17b.check_quiesce(prop, tier, None), c17b.check_ratelimit(prop, tier, None)]
+    return 1 if 1 in rs else max(rs)
+
+
+CHECKS["C17"] = _c17
+
+
+def _c03(prop, tier, replay_path):
+    """C03 = protocol (rsim + MCRaft) + votes / leaders of real NodeHost clusters across power losses (nhsim)"""
+    import json
+    if replay_path:
+        with open(replay_path) as fh:
+            kind = json.load(fh).get("kind")
+        if kind == "TestVerifNhsim":
+            return nhfamily.check_c03_nodes(prop, tier, replay_path)
+        return raftfamily.check(prop, tier, replay_path)
+    a = raftfamily.check(prop, tier, None)
+    b = nhfamily.check_c03_nodes(prop, tier, None)
+    return 1 if 1 in (a, b) else max(a, b)
+
+
+CHECKS["C03"] = _c03
